@@ -259,11 +259,11 @@ def c_panic_move(site, fx):
 
 def c_picker_get(site, fx):
     # self.moves.get(i).unwrap() with i < len (loop index / selection index inside [idx, limit) <= len)
-    return site.family == "unwrap" and in_fn(site, "MovePicker::next", "MovePicker::next_best_move") and bool(find_calls(op0(site), "slice::get", "ArrayVec::get"))
+    return site.family == "unwrap" and "move_picker::MovePicker::" in bn(site) and bool(find_calls(op0(site), "slice::get", "ArrayVec::get"))
 
 
 def c_picker_swap(site, fx):
-    return site.family == "index" and site.what == "swap" and in_fn(site, "MovePicker::next", "MovePicker::next_best_move")
+    return site.family == "index" and site.what == "swap" and "move_picker::MovePicker::" in bn(site)
 
 
 def c_picker_idx(site, fx):
